@@ -3,6 +3,7 @@
 //!   line <text>                 line_to_cmds -> per segment parse_line, is_arithmetic, the real
 //!                               do_expansion, the real CommandLine::from_line, and the first-word
 //!                               look-ups of run_proc / run_pipeline (emulated WITHOUT forking, see fw())
+//!   redir / fromtok <tag> <word> ...   tokens_to_redirections / Command::from_tokens on a token list
 //!   hl <text>                   <CicadaHighlighter as lineread::Highlighter>::highlight -> ranges
 //!   hlr <start> <tag> <word> <text>   find_token_range_heuristic at an arbitrary byte offset
 //!   ws <text>                   completers::escaped_word_start
@@ -40,6 +41,16 @@ fn cmd_str(c: &Command) -> String {
         Some((t, v)) => format!("({},{})", q(t), q(v)),
     };
     format!("C(tokens={},redirs={},from={})", tokens_str(&c.tokens), redirs_str(&c.redirects_to), from)
+}
+
+fn tokens_of_fields(f: &[&str]) -> Vec<(String, String)> {
+    let mut v = Vec::new();
+    let mut i = 0;
+    while i + 1 < f.len() {
+        v.push((dec(f[i]), dec(f[i + 1])));
+        i += 2;
+    }
+    v
 }
 
 fn plan_str(cl: &CommandLine) -> String {
@@ -99,6 +110,14 @@ fn ranges_str(v: &[(usize, usize)]) -> String {
 
 fn main() {
     // (a forked child of the code under test that panics is stopped by hx::main_loop itself)
+    // commands run by the real expansion (`$(cat)`, backquotes) must not wait on whatever stdin the driver inherited
+    unsafe {
+        let fd = libc::open(b"/dev/null\0".as_ptr() as *const libc::c_char, libc::O_RDONLY);
+        if fd >= 0 {
+            libc::dup2(fd, 0);
+            libc::close(fd);
+        }
+    }
     main_loop(|f| op(f));
 }
 
@@ -170,6 +189,14 @@ fn op(f: &[&str]) -> String {
             }
             out
         }
+        "redir" => match parser_line::tokens_to_redirections(&tokens_of_fields(&f[1..])) {
+            Ok((t, r)) => format!("R(tokens={},redirs={})", tokens_str(&t), redirs_str(&r)),
+            Err(e) => rerr(&e),
+        },
+        "fromtok" => match Command::from_tokens(tokens_of_fields(&f[1..])) {
+            Ok(c) => cmd_str(&c),
+            Err(e) => rerr(&e),
+        },
         "hl" => {
             let line = dec(f[1]);
             let h = highlight::create_highlighter();
